@@ -71,7 +71,7 @@ CLAIMS = {
              "overflow, no flush). tx_covers + C04_step_on_chip: the interpreter over the chip model, cached or uncached build, with any "
              "schedule of modulator events before any transfer and any failing transfers, is an instance of txE (flag facts decided in the "
              "kernel over all 256 register values), so the statements hold for executions on the simulated chip, whose overflow counter stays "
-             "unchanged; C04_step_on_chip_obs states it in terms of the observation of the step (the callbacks shown are exactly what the invocation added to the ghost list: none, or the one transmit callback). Not proved: that the whole frame has been handed over when the chip reports completion (this is the no-underrun "
+             "unchanged; C04_step_on_chip_obs states it in terms of the observation of the step (the callbacks shown are exactly what the invocation added to the ghost list: none, or the one transmit callback), and TxRunning.event / TxRunning.irq make the running transmission a closed set of states (a modulator event between operations; a handler invocation: still running and nothing seen, or completion with exactly one transmit callback). Not proved: that the whole frame has been handed over when the chip reports completion (this is the no-underrun "
              "assumption on the schedule), and exactly-once delivery when the application queues the next packet or leaves TX inside the "
              "callback - decided by the scripts (stay/leave/chain behaviours, in-handler modulator events, faults) on the real driver.",
         technique="Lean 4 weakest-precondition calculus over an abstract environment (all schedules, all answers) + refinement of the chip-model interpreter to that environment + TX schedules on the real driver",
